@@ -67,13 +67,13 @@ Definition resolver_of_view (u : universe) (v : rview) : Resolver.resolver :=
    (Resolver.resolve_with is the case of an empty one, which is what a fresh
    clone has) *)
 Definition resolve_with_sel (R : Resolver.resolver) (world : list string) (dq0 : list nat)
-  (sel0 : list (string * nat)) (scheds : list (list string)) : res (list nat) :=
+  (sel0 : list (string * nat)) : res (list nat) :=
   let cw := List.map Resolver.cook_dep world in
   let ws := List.map Resolver.d_pos cw in
   do dq1 <- Resolver.constrain R cw dq0;
   do r <- Resolver.phase1 (List.length ws) R ws dq1 [];
   let '(dq2, depmap) := r in
-  Resolver.phase2 R ws scheds dq2 sel0 ([], [], depmap).
+  Resolver.phase2 R ws dq2 sel0 ([], [], depmap).
 
 Definition flat_sel (u : universe) (ixs : list idxid) (sel : list (string * pid)) : list (string * nat) :=
   filter_some (List.map (fun e => match flat_of u ixs (snd e) with Some n => Some (fst e, n) | None => None end) sel).
@@ -84,13 +84,12 @@ Definition flat_sel (u : universe) (ixs : list idxid) (sel : list (string * pid)
    them; every theorem holds for all of them) *)
 Section ResolverCore.
   Variable u : universe.
-  Variable scheds : list (list string).     (* the install_if loops' iteration orders *)
   Variable fsel : rview -> list string -> list (string * pid).
   Variable fdq : rview -> list string -> list pid.
 
   Definition resolver_f (v : rview) (w : list string) : list (string * pid) * list pid * res (list pid) :=
     let R := resolver_of_view u v in
-    let r := resolve_with_sel R w (flat_pids u (v_idx v) (v_dq v)) (flat_sel u (v_idx v) (v_sel v)) scheds in
+    let r := resolve_with_sel R w (flat_pids u (v_idx v) (v_dq v)) (flat_sel u (v_idx v) (v_sel v)) in
     (fsel v w, fdq v w,
      match r with Ok l => Ok (List.map (unflat u (v_idx v)) l) | Err => Err | Panic => Panic | OutOfFuel => OutOfFuel end).
 
